@@ -261,7 +261,22 @@ def run_dropout(ns, c):
                 continue
             a = np.take(mk, range(0, mk.shape[ax] - 1), axis=ax).ravel()
             b = np.take(mk, range(1, mk.shape[ax]), axis=ax).ravel()
-            if a.std() > 0 and b.std() > 0:
+            pr_ = min(p, 1 - p)
+            if pr_ < 0.05:
+                # rare class (p = 0.002 / 0.998): the sample correlation is far from normal there (three adjacent pairs of rare events among 40000
+                # positions already exceed 6/sqrt(n); seen once in a thorough sweep on the unchanged tree).  Exact test instead: the number of
+                # adjacent positions that are both in the rare class is ~ Poisson(m * pr^2) under independence
+                rare_a, rare_b = (a, b) if p < 0.5 else (1 - a, 1 - b)
+                k_pairs = int(np.sum(rare_a * rare_b))
+                mu_ = a.size * pr_ * pr_
+                tail_, term_ = 1.0, math.exp(-mu_)
+                for j_ in range(k_pairs):
+                    tail_ -= term_
+                    term_ *= mu_ / (j_ + 1)
+                counters["correlation_tests"] = counters.get("correlation_tests", 0) + 1
+                if k_pairs > 0 and tail_ < 1e-9:
+                    viol.append(V(f"dropout:mask-correlated:{nm}", f"{k_pairs} adjacent pairs of rare-class positions {nm} where {mu_:.3g} are expected under independence (tail {tail_:.2g})", p=p))
+            elif a.std() > 0 and b.std() > 0:
                 r_ = float(np.corrcoef(a, b)[0, 1])
                 counters["correlation_tests"] = counters.get("correlation_tests", 0) + 1
                 if abs(r_) > 6 / math.sqrt(a.size):
